@@ -226,17 +226,21 @@ CHECKS["C02"] = {
 }
 
 CHECKS["C07"] = {
-    "text": "Partial. Proof (Coq) over the whole finite domain generated from /repo (15 relation kinds x the attributes a "
-            "qualified relation can carry): the RDF predicate chosen by the writer's cascade of substring tests is read back by "
-            "the reader's predicate_mapper and kind-dependent substring tests as the same attribute; the known defect for custom "
-            "attribute names containing the tested substrings is refuted in the model (C07-F1). The quad-level round trip "
-            "(qualified-influence pattern, unqualified forms, literal mapping, bundles as named graphs) is NOT modelled in Coq: "
-            "it is decided per run by a direct oracle on documents generated inside the property's quantifier — TriG written, "
-            "read back, compared set-based with unified(), and the decoder re-run on graphs rebuilt in shuffled quad order. "
-            "Tie: model predicate vs the predicate found in the implementation's graph, and the attribute read back, for every "
-            "kind x attribute.",
+    "text": "Partial. Proof (Coq), all by computation over finite domains generated from /repo: (1) for 15 relation kinds x the "
+            "attributes a qualified relation can carry, the RDF predicate chosen by the writer's cascade of substring tests is "
+            "read back by the reader's predicate_mapper and kind-dependent tests as the same attribute (C07-F1 refuted in the "
+            "model for custom names containing the tested substrings); (2) quad level (Rdfq.v: binary triple, qualified node and "
+            "what it carries, typed nodes, link from the subject, fold of binary association/delegation triples): every relation "
+            "shape of the quantifier — kind x identified/anonymous x subset of optional arguments x kind of extra attribute — "
+            "alone and in pairs on one subject (same or other object) comes back as itself; the kind lists both functions test "
+            "are generated from the source, so editing them breaks the theorem at build time. Values are opaque tokens; elements, "
+            "bundles, literal mapping are not modelled. Per run: documents generated inside the quantifier and the whole shape "
+            "family are written as TriG, read back, compared set-based with unified(), the decoder re-run on shuffled quad "
+            "orders; tie: model predicates vs the implementation's graph, model graph vs implementation graph up to blank-node "
+            "renaming, model decoded relations vs the implementation's, for every shape document.",
     "design_ref": "DESIGN.md §5 C07, §10",
-    "technique": "Coq proof by computation over the finite predicate domain + round-trip oracle with shuffled quad orders",
+    "technique": "Coq proofs by computation over finite domains (predicates; relation shapes and pairs) + structural correspondence "
+                 "+ round-trip oracle with shuffled quad orders",
 }
 
 NOT_YET = {}
